@@ -3,9 +3,10 @@
 _ALTS = [("strict-closed", "sc"), ("strict-open", "so"), ("nonstrict-closed", "nc"), ("nonstrict-open", "no")]
 
 
-def _alts(stage):
-    return [dict(name=n, cfg={"quick": f"MC_StressRelief_{stage}_q_{s}.cfg", "thorough": f"MC_StressRelief_{stage}_t_{s}.cfg"})
-            for n, s in _ALTS]
+def _alts(stage, variants=(("", ""),)):
+    # the unchanged code conforms to the first alternative; the others only run when that one diverges
+    return [dict(name=vn + n, cfg={"quick": f"MC_StressRelief_{stage}_q_{vs}{s}.cfg", "thorough": f"MC_StressRelief_{stage}_t_{vs}{s}.cfg"})
+            for vn, vs in variants for n, s in _ALTS]
 
 
 PROP = dict(
@@ -27,7 +28,7 @@ PROP = dict(
                  "bounded: <=2 peers, levels {0,40,75,100}, timeout and hold <=2 ticks"],
     stages=[
         dict(kind="walk", name="hold", module="StressRelief", pkg="collect", test="TestVerifStressRelief",
-             harness=["collect/c15_stressrelief_test.go"], alternatives=_alts("hold"),
+             harness=["collect/c15_stressrelief_test.go"], alternatives=_alts("hold", (("deadline-", ""), ("instant-", "i"))),
              budget={"quick": 25, "thorough": 150}),
         dict(kind="walk", name="cluster", module="StressRelief", pkg="collect", test="TestVerifStressRelief",
              harness=["collect/c15_stressrelief_test.go"], alternatives=_alts("cluster"),
